@@ -593,6 +593,7 @@ class SymEx:
             for s, v in res:
                 p = Path(s, 'raise', None) if s.exc is not None else Path(s, 'return', v)
                 p.local_env, p.outer_env = s.env, {}
+                p.convention = conv
                 k_ = (p.outcome, T.tkey(v) if v is not None and s.exc is None else (s.exc[1:3] if s.exc else None), tuple((T.tkey(c), b_) for c, b_, _ in p.conds),
                       tuple((T.tkey(e.loc), T.tkey(e.value) if e.value is not None else None, e.how) for e in p.flat_events() if e.kind == 'write'))
                 if k_ in seen:
@@ -746,6 +747,10 @@ class SymEx:
                             # `xs += <list>` extends in place the object xs is bound to: when that is somebody else's list (an attribute, the answer of
                             # a call) rather than a container built here, the owner sees the change
                             y = y.ev(Ev('write', loc=old, value=nv, how='mut:extend', site=self.site(s), fn=self.fn.qn, old=None, delta=None, local=False))
+                        if isinstance(s.target, ast.Name) and isinstance(s.op, ast.BitOr) and not _is_local_container(old) \
+                                and (old[0] == 'attr' or (old[0] == 'call' and old[1][0] in ('fn', 'meth'))) and (v[0] in ('dict', 'set') or (v[0] == 'call' and v[1][0] in ('fn', 'meth'))):
+                            # `d |= other` merges into the object d is bound to: somebody else's dict/set (an attribute, the answer of a call) changes for its owner too
+                            y = y.ev(Ev('write', loc=old, value=nv, how='mut:update', site=self.site(s), fn=self.fn.qn, old=None, delta=None, local=False))
                         out.extend((y2, None) for y2 in self.assign_multi(s.target, nv, y, s, how='aug', old=old, delta=(v, type(s.op).__name__)))
                         continue
                     out.append((y, None))
@@ -2557,7 +2562,8 @@ class SymEx:
                         ast.copy_location(n, e)
                 return self.ev(g, st)
         if not self.suppress and e.args and not any(isinstance(a_, ast.Starred) for a_ in e.args) and all(k_.arg for k_ in e.keywords) \
-                and isinstance(e.args[0], ast.Attribute) and self.M.ext_name(fn.mod, f) == 'functools.partial' and not isinstance(getattr(e, '_qs_partial', None), bool):
+                and isinstance(e.args[0], ast.Attribute) and self.M.ext_name(fn.mod, f) == 'functools.partial' and not isinstance(getattr(e, '_qs_partial', None), bool) \
+                and self.M.ext_name(fn.mod, e.args[0]) is None:
             # partial(obj.method, a, k=v) is  lambda _a=a, _k=v: obj.method(_a, k=_k)  - the arguments bound NOW, the method looked up on the object when called;
             # read that way the call is resolved like any other call of obj.method (extra call-time arguments are not followed)
             names = ['_pa%d' % i_ for i_ in range(len(e.args) - 1)] + ['_pk_%s' % k_.arg for k_ in e.keywords]
@@ -2570,6 +2576,7 @@ class SymEx:
                 if not hasattr(n_, 'lineno'):
                     ast.copy_location(n_, e)
             ast.copy_location(lam, e)
+            lam._qs_partial_lambda = True
             return self.ev(lam, st)
         if isinstance(f, ast.Attribute) and not self.suppress and f.attr in bound_callables(self.M) and not (isinstance(f.value, ast.Name) and f.value.id == 'self'
                                                                                                          and self.fn.cls is not None and self.fn.cls.lookup(f.attr) is not None):
@@ -2903,7 +2910,16 @@ class SymEx:
                 cenv.update({k: v for k, v in st.env.items() if k in cenv})      # still inside the defining scope: current values
         if any(fr.qn == g.qn for fr in self.frames):
             raise Undecided('recursion through %s' % g.qn)
+        a_ = g.node.args
+        known_ = {p_.arg for p_ in list(a_.posonlyargs) + list(a_.args) + list(a_.kwonlyargs)}
+        if a_.kwarg is None and any(k_ is not None and k_ not in known_ for k_, _ in kwargs):
+            # Python refuses the call (unexpected keyword argument): not a path of the function
+            raise Undecided('%s is called with a keyword it does not take' % g.qn)
         bound = self.apply_defaults(g, self.bind(g, args, kwargs, skip_self=False), st)
+        req_ = [p_.arg for p_ in list(a_.posonlyargs) + list(a_.args)][:len(a_.posonlyargs) + len(a_.args) - len(a_.defaults)]
+        if any(p_ not in bound for p_ in req_) and not any(a2_[0] == 'starred' for a2_ in args) and not any(k_ is None for k_, _ in kwargs):
+            # Python refuses the call (missing required argument - a wrapper that names its first parameter differently, called by keyword): not a path
+            raise Undecided('%s is called without its parameter %s' % (g.qn, next(p_ for p_ in req_ if p_ not in bound)))
         saved_env = st.env
         x = st.ev(Ev('enter', fn=g.qn, site=self.site(e), caller=self.fn.qn))
         self._bind_rest_once = True
@@ -3024,6 +3040,35 @@ class SymEx:
                 _, node, env, host = clo
                 ps = [a.arg for a in node.args.args]
                 dflt = env.get('@defaults', {})
+                if getattr(node, '_qs_partial_lambda', False) and (args or kwargs) and all(k_ in dflt for k_ in ps) and not any(a[0] == 'starred' for a in args):
+                    # the stand-in for partial(obj.method, *bound): arguments given at call time come AFTER the bound ones
+                    y = st.copy()
+                    saved = st.env
+                    y.env = {k_: v_ for k_, v_ in env.items() if k_ != '@defaults'}
+                    y.env.update({k_: dflt[k_] for k_ in ps})
+                    extra_a, extra_k = [], []
+                    for i_, a_ in enumerate(args):
+                        y.env['_px%d' % i_] = a_
+                        extra_a.append(ast.Name(id='_px%d' % i_, ctx=ast.Load()))
+                    for k_, v_ in kwargs:
+                        y.env['_pxk_%s' % k_] = v_
+                        extra_k.append(ast.keyword(arg=k_, value=ast.Name(id='_pxk_%s' % k_, ctx=ast.Load())))
+                    body2 = ast.Call(func=node.body.func, args=list(node.body.args) + extra_a, keywords=[k_ for k_ in node.body.keywords if k_.arg not in dict(kwargs)] + extra_k)
+                    for n_ in ast.walk(body2):
+                        if not hasattr(n_, 'lineno'):
+                            ast.copy_location(n_, node)
+                    ast.copy_location(body2, node)
+                    self.frames.append(host)
+                    try:
+                        res = self.ev(body2, y)
+                    finally:
+                        self.frames.pop()
+                    out = []
+                    for z, v in res:
+                        z = z.copy()
+                        z.env = dict(saved)
+                        out.append((z, v))
+                    return out
                 given = dict(zip(ps, args))
                 given.update({k_: v_ for k_, v_ in kwargs if k_ in ps})
                 for k_ in ps:
@@ -3625,7 +3670,7 @@ def _concat(a, b):
 
 
 _LIB_CLASSES = {'datetime.time', 'datetime.date', 'datetime.datetime', 'datetime.timedelta', 'collections.deque', 'collections.defaultdict', 'queue.Queue',
-                'functools.partial', 'itertools.count', 'itertools.chain', 'itertools.repeat'}
+                'functools.partial', 'operator.attrgetter', 'operator.itemgetter', 'operator.methodcaller', 'itertools.count', 'itertools.chain', 'itertools.repeat'}
 
 
 def _fold_fmt(t):
